@@ -20,10 +20,15 @@ FUNCS = ["reshape", "permute_dims", "matrix_transpose", "T", "mT", "expand_dims"
 DTYPES = ["int64", "utf8", "nint32", "float32", "nutf8", "bool", "uint8", "nfloat64", "nbool", "int16", "uint64", "struct"]
 
 
+def ext(rng):
+    """Extent of one axis: 0 and 1 are boundary cases, not the bulk."""
+    return rng.choice([0, 1, 1, 2, 2, 2, 3, 3, 3, 4, 5])
+
+
 def gen_case(rng, fn):
     """(shape(s), params) admissible for NumPy."""
     r = rng.choice([0, 1, 2, 2, 3, 3, 4])
-    shape = tuple(rng.choice([0, 1, 2, 3]) for _ in range(r))
+    shape = tuple(ext(rng) for _ in range(r))
     if fn == "reshape":
         size = int(np.prod(shape)) if shape else 1
         opts = [(-1,), (size,), (1, -1), (-1, 1)]
@@ -280,7 +285,9 @@ def run(ctx: common.Ctx):
         "extents 0/1, ranks 0-4); token data so that element identity is observable; eager and traced (symbolic dims) "
         "compared field by field with NumPy; distinct = distinct (function, dtype, shapes, params); non-trivial = rank >= 1")
     quick = ctx.tier == "quick"
-    jobs = [(fn, d, ctx.seed * 1000 + k) for fn in FUNCS for d in DTYPES for k in range(3 if quick else 40)]
+    heavy = {"roll": 3, "take": 2, "squeeze": 2, "reshape": 2, "concat": 2, "flip": 2}      # larger parameter spaces
+    jobs = [(fn, d, ctx.seed * 1000 + k) for fn in FUNCS for d in DTYPES
+            for k in range((3 if quick else 40) * heavy.get(fn, 1))]
     res = tables.pmap(worker, jobs, chunk=8)
     for job, r in zip(jobs, res):
         if isinstance(r, tables.Crashed):
